@@ -189,7 +189,7 @@ def map_corpus(tier, seed):
             for strip in (False, True):
                 for capmode in (('u4', 'rnd') if tier == 'quick' else ('u4', 'u8', 'u16', 'rnd', 'rnd2')):
                     items.append((('nl', nl.to_json(), style), reuse, strip, capmode))
-    for r in netlist.G4:
+    for r in netlist.G4 + netlist.G4_LEAN:
         for reuse in (False, True):
             for strip in (False, True):
                 items.append((r, reuse, strip, 'u16'))
